@@ -219,3 +219,19 @@ reg("C36", "fault_enumeration", "E1+E5b",
     "job with one start and one end record for the same @id, errored flags equal to the job results, no end record for an unknown "
     "activity, nothing emitted on a pure cache hit.",
     "Raw .jsonld files are read (no pyld / network); the executed-job table is cross-checked against the body log, mismatching cases are skipped and listed.")
+
+reg("C06", "model_checking", "E2",
+    "explicit-state BFS over submission histories into one cache root per one-aspect task family, to the fixed point",
+    "23 families of deterministic tasks whose variants differ in exactly one aspect (function body, closure value, defaults, module "
+    "constant, input type/shape/dtype/class, shell executable/argstr/position/sep/formatter/output callable), submitted directly "
+    "and as the input value of an outer task: a BFS over cache-root states (set of job directories with stored outputs), every "
+    "transition a real submission after restoring the snapshot; after every submission of every history the returned outputs "
+    "must equal that variant's outputs in a fresh root.",
+    "Differential oracle only; debug worker; outputs compared through repr(); violations re-run from an empty root at another path before being reported.")
+reg("C09", "model_checking", "E2",
+    "explicit-state BFS over file-operation histories on real files with explicitly set timestamps",
+    "Histories of write (3 contents), utime (previous / +1 ns / +2 s), rename-over, copy2 in both directions and hash observations "
+    "of File(p) and Directory(D), from 4 (5) initial states, depth <=4 (thorough <=6); every mtime set with os.utime(ns=...) from a "
+    "time model checked against the kernel at every transition; at every observation hash_function with the shared persistent "
+    "cache must equal the same call with an empty cache directory, also through Task._checksum and in fresh interpreters.",
+    "State = (content id, mtime) of both paths, directory mtime, clock and the exact persistent-cache files; only identical states merge; complete for the depth bound.")
